@@ -102,7 +102,10 @@ impl AlgorithmConfig {
 
     /// The real `combine` (and through it the private `vote_leap`) on a given selection:
     /// (combine returned Some, its leap indicator).
-    pub(crate) fn verif_gb_combine_leap(&self, selection: &[Snap]) -> (bool, Option<NtpLeapIndicator>) {
+    pub(crate) fn verif_gb_combine_leap(
+        &self,
+        selection: &[Snap],
+    ) -> (bool, Option<NtpLeapIndicator>) {
         let c: Vec<SourceSnapshot> = selection.iter().map(build).collect();
         match combine(&c, self) {
             Some(c) => (true, c.leap_indicator),
